@@ -131,4 +131,11 @@ Section Pred.
      else memb k lF).
   Definition corner_holdsb (pts : list (@point N)) (ks : list nat) (t : T N) (lF lS : list nat) : bool :=
     sublistb lF ks && sublistb lS ks && forallb (corner_rule_at pts t lF lS) ks.
+
+  (* the rule of ONE call (Tier S, no order law): the output is an order-preserving sublist of ks and a knee is in it
+     exactly when the code's own comparison says so.  Used to judge every call of a multi-call sequence on its own. *)
+  Definition filter_rule_holdsb (pts : list (@point N)) (ks : list nat) (t : T N) (lF : list nat) : bool :=
+    sublistb lF ks && forallb (fun k => Bool.eqb (memb k lF) (corner_keepb pts t k)) ks.
+  Definition select_rule_holdsb (pts : list (@point N)) (ks : list nat) (t : T N) (lS : list nat) : bool :=
+    sublistb lS ks && forallb (fun k => Bool.eqb (memb k lS) (corner_selectb pts t k)) ks.
 End Pred.
